@@ -65,7 +65,10 @@ def case():
         for i in range(1, len(els)):
             if els[i - 1]["kind"] in ("lots", "div") and draw(st.integers(0, 3)) == 0:
                 seps[i] = draw(st.sampled_from(["\n", "\n\n", " \n"]))
-        return {"els": els, "seps": seps, "config": draw(st.sampled_from(CONFIGS))}
+        return {"els": els, "seps": seps, "config": draw(st.sampled_from(CONFIGS)),
+                # how suppress_lot_divs reaches the parse: through the config (as written in "config"), or through / against a keyword
+                "suppress_via": draw(st.sampled_from(["config", "config", "kw", "kw_false_over_config", "kw_true_over_config"])),
+                "reparse": draw(st.sampled_from(["none", "none", "same_same_toggled"]))}
     return build()
 
 
@@ -162,6 +165,8 @@ def classes(c):
         out.add("acreage")
     if "suppress_lot_divs" in c["config"]:
         out.add("suppress")
+    out.add(f"via={c.get('suppress_via')}")
+    out.add(f"reparse={c.get('reparse')}")
     return sorted(out)
 
 
@@ -169,11 +174,32 @@ def has_dup(lst):
     return len(set(lst)) != len(lst)
 
 
+def make_tract(text, cfg, via):
+    """Build and parse a Tract; returns (tract, effective suppress_lot_divs)."""
+    base = ",".join(x for x in cfg.split(",") if x and not x.startswith("suppress_lot_divs"))
+    want = "suppress_lot_divs" in cfg
+    if via == "kw":
+        t = Tract(text, config=base)
+        t.parse(suppress_lot_divs=want)
+        return t, want
+    if via == "kw_false_over_config":
+        t = Tract(text, config=",".join(x for x in (base, "suppress_lot_divs") if x))
+        t.parse(suppress_lot_divs=False)
+        return t, False
+    if via == "kw_true_over_config":
+        t = Tract(text, config=",".join(x for x in (base, "suppress_lot_divs.False") if x))
+        t.parse(suppress_lot_divs=True)
+        return t, True
+    return Tract(text, parse_qq=True, config=cfg), want
+
+
 def oracle(c):
     cfg = c["config"]
-    suppress = "suppress_lot_divs" in cfg
     text = full_text(c)
-    t = Tract(text, parse_qq=True, config=cfg)
+    t, suppress = make_tract(text, cfg, c.get("suppress_via", "config"))
+    cfg = ",".join(x for x in cfg.split(",") if x and not x.startswith("suppress_lot_divs"))
+    if suppress:
+        cfg = ",".join(x for x in (cfg, "suppress_lot_divs") if x)
     fails = []
     ctx = dict(text=text, config=cfg, lots=list(t.lots), qqs=list(t.qqs))
     # (a) differential against the parts
@@ -231,6 +257,17 @@ def oracle(c):
         fails.append(Failure("dup_lot_flag", f"{text!r}: dup_lot warning present={got_dl} but lots={t.lots}", w_flags=list(t.w_flags), **ctx))
     if got_dq != has_dup(list(t.qqs)):
         fails.append(Failure("dup_qq_flag", f"{text!r}: dup_qq warning present={got_dq} but qqs={t.qqs}", w_flags=list(t.w_flags), **ctx))
+    if c.get("reparse") == "same_same_toggled" and not fails:
+        # parse again twice with the same settings, then once with divisions toggled: the warnings must follow the results
+        t.parse(suppress_lot_divs=suppress)
+        t.parse(suppress_lot_divs=suppress)
+        t.parse(suppress_lot_divs=not suppress)
+        got_dl = any(f.startswith("dup_lot<") for f in t.w_flags)
+        got_dq = any(f.startswith("dup_qq<") for f in t.w_flags)
+        if got_dl != has_dup(list(t.lots)) or got_dq != has_dup(list(t.qqs)):
+            fails.append(Failure("dup_flag_after_reparse", f"{text!r}: after re-parsing with suppress_lot_divs={not suppress}: dup warnings lot={got_dl} qq={got_dq} but lots={t.lots} qqs={t.qqs}",
+                                 w_flags=list(t.w_flags), **ctx))
+        t.parse(suppress_lot_divs=suppress)
     n_dl = sum(1 for f in t.w_flags if f.startswith("dup_lot<"))
     n_dq = sum(1 for f in t.w_flags if f.startswith("dup_qq<"))
     if n_dl > 1 or n_dq > 1:
@@ -245,5 +282,5 @@ def render(c):
 SUBS = [
     Sub("compose", oracle, strategy=lambda tier: case(), validate=validate, nontrivial=nontrivial, classes=classes, render=render,
         n={"quick": 800, "thorough": 15000}, shards={"quick": 12, "thorough": 16},
-        essential=("lots->aliquot", "aliquot->lots", "div->aliquot", "aliquot->div", "lots->div", "aliquot->all", "acreage", "suppress", "bare_linebreak")),
+        essential=("lots->aliquot", "aliquot->lots", "div->aliquot", "aliquot->div", "lots->div", "aliquot->all", "acreage", "suppress", "bare_linebreak", "via=kw_false_over_config", "via=kw_true_over_config", "reparse=same_same_toggled")),
 ]
